@@ -84,6 +84,7 @@ func FamilySignature(thorough bool) []*Conv {
 	}
 	// two converters of one output package with one struct name: a diagnostic, not a package that does not compile
 	add("duplicate_struct_name", "struct", "source PFXIn", "PFXOut", "// goverter:converter\n// goverter:name PFXSame\ntype PFXOther interface {\n\tConvert(source PFXOut) PFXIn\n}\n", []string{"name PFXSame"}, nil, "two converters with the same goverter:name in one output package")
+	add("duplicate_function_name", "function", "source PFXIn", "PFXOut", "// goverter:converter\n// goverter:output:format function\ntype PFXOther2 interface {\n\tCONVMETHOD(source PFXOut) PFXIn\n}\n", nil, nil, "two function-format converters that declare the same function name in one output package")
 	// custom functions that take the converter interface: a role of its own where a converter value exists (struct
 	// format), an ordinary second source - hence rejected - in function format, whichever setting names the function
 	for _, f := range []string{"struct", "function"} {
